@@ -291,6 +291,7 @@ def run(ctx):
             shutil.rmtree(tdir, ignore_errors=True)
     ir, d2 = base.correspondence(ctx, cases[:40])
     dis += d2
+    base.fragment_s_tie(ctx, dis, stats, ['remove_corners', 'decide_literal_type'])
     return base.std_result(ctx, cases, viol, dis, base.known_lines(kf, hit), stats, stats["comparisons_without_tie"], [],
                            "schema-consistent and general graphs (30 %% with blank nodes; plain / typed / language-tagged literals) x %d delivery channels "
                            "(NT / TSV / TURTLE / TURTLE_ITER / RDF-XML / JSON-LD / N3 as file and raw string, rdflib Graph, file:// URL, lists of 2-4 files "
